@@ -26,9 +26,16 @@ G10_everyHopCarriesTheRequest(e) ==
                   /\ \A i \in 1..Len(e.inner) : e.inner[i].caller = <<"kept-value">> /\ e.inner[i].method = e.method
                                                 /\ (e.callerAuth => e.inner[i].auth = <<"Bearer SECRET-TOKEN-1">>)
 G12_verifiedExchangeSucceeds(e) == e.res = "ok" /\ e.status = 200
+\* a chain that starts with a plain http hop through the same proxy (e.plainFirst): that hop is one absolute-form
+\* request with one Host field (C08 fixes the Host value only for direct and tunnelled requests: this client
+\* writes the proxy's name there); everything above still holds for the tunnelled hops that follow
+G10_plainHopThenTunnel(e) ==
+  IF e.plainFirst THEN (e.res = "ok" => (Len(e.plain) = 1 /\ e.plain[1].form = "absolute" /\ Len(e.plain[1].hosts) = 1
+                                         /\ ~e.plain[1].hasFragment /\ e.plain[1].method = e.method))
+  ELSE e.plain = <<>>
 
 TqGuards == {"G12_oneConnectPerHop", "G12_connectNamesOrigin", "G12_proxyCredentialsToProxyOnly", "G12_nothingOfTheCallerInClear",
-             "G08_tunnelledRequestShape", "G10_everyHopCarriesTheRequest", "G12_verifiedExchangeSucceeds"}
+             "G08_tunnelledRequestShape", "G10_everyHopCarriesTheRequest", "G12_verifiedExchangeSucceeds", "G10_plainHopThenTunnel"}
 TqGuard(g, e) ==
   CASE g = "G12_oneConnectPerHop" -> G12_oneConnectPerHop(e) [] g = "G12_connectNamesOrigin" -> G12_connectNamesOrigin(e)
     [] g = "G12_proxyCredentialsToProxyOnly" -> G12_proxyCredentialsToProxyOnly(e)
@@ -36,5 +43,6 @@ TqGuard(g, e) ==
     [] g = "G08_tunnelledRequestShape" -> G08_tunnelledRequestShape(e)
     [] g = "G10_everyHopCarriesTheRequest" -> G10_everyHopCarriesTheRequest(e)
     [] g = "G12_verifiedExchangeSucceeds" -> G12_verifiedExchangeSucceeds(e)
-TqProps(g) == IF g = "G08_tunnelledRequestShape" THEN {"C08", "C10"} ELSE IF g = "G10_everyHopCarriesTheRequest" THEN {"C10"} ELSE {"C12"}
+    [] g = "G10_plainHopThenTunnel" -> G10_plainHopThenTunnel(e)
+TqProps(g) == IF g = "G08_tunnelledRequestShape" THEN {"C08", "C10"} ELSE IF g \in {"G10_everyHopCarriesTheRequest", "G10_plainHopThenTunnel"} THEN {"C10"} ELSE {"C12"}
 =============================================================================
